@@ -565,6 +565,29 @@ example :
     evalChain (fun f (xs : List String) => Out.ok ("(" ++ f ++ " " ++ joinWith " " xs ++ ")")) tcCmp
       "1" (givenOps (fun n : Nat => toString n) (rest exTree)) =
       .ok "(<,< (+ 1 (* 2 3)) 4 (^ 5 (^ 6 7)))" := by decide +kernel
+/-- a toy interpreter for the arm: expressions are numbers evaluating to themselves, `0` is `_`,
+numbers >= 100 are functions with precedence = last digit, applying `f` adds `f` to the sum of the
+arguments -/
+def exLang : Lang Nat Nat Nat where
+  evaluate := fun e => .ok e
+  isUnderscore := fun e => e == 0
+  asFunc := fun v => if v ≥ 100 then some (v, ⟨.fin (v % 10), .left⟩) else none
+  mkSection := fun _ _ => 0
+  run := fun f args => .ok (f + args.sum)
+  run2 := fun f a b => .ok (f + [a, b].sum)
+  tryChain := fun _ _ => none
+
+-- hypotheses of `direct_chain_value` / `fast_path_agrees` / `each_operand_once_in_order` are satisfiable:
+example : ∀ f a b, exLang.run2 f a b = exLang.run f [a, b] := fun _ _ _ => rfl
+example : chainArm exLang 1 [(104, 2), (105, 3)] = ([1, 104, 2, 105, 3], .ok (104 + (1 + ((105 + (2 + (3 + 0))) + 0)))) := by
+  decide +kernel
+example : evalOps exLang [(104, 2), (105, 3)] = some [(104, ⟨.fin 4, .left⟩, some 2), (105, ⟨.fin 5, .left⟩, some 3)] := by
+  decide +kernel
+-- a section (`_ 104 2`) applied to one argument, and to the wrong number of arguments
+example : runChainSection exLang none [(104, ⟨.fin 4, .left⟩, some 2)] [7] = .ok (104 + (7 + (2 + 0))) := by
+  decide +kernel
+example : runChainSection exLang none [(104, ⟨.fin 4, .left⟩, some 2)] [7, 8] = .throw := by decide +kernel
+example : runChainSection exLang none [(104, ⟨.fin 4, .left⟩, none)] [7] = .throw := by decide +kernel
 end examples
 
 end Noulith.Chain.C03
